@@ -537,6 +537,9 @@ func (b *builder) build(s *Spec, label string) gen.V {
 		f["Enum"] = g.Anys(gen.Any(gen.TString(), absint.HoleStr(b.atom(s, "RawStr", "enum[0]", false))), gen.Any(gen.TFloat64(), absint.Num{A: b.atom(s, "Float", "enum[1]", true), IsFloat: true}), gen.Any(gen.TBool(), true), absint.Iface{})
 	case "null":
 		f["Enum"] = g.Anys(absint.Iface{})
+	case "strings+null":
+		// a nullable string enum that lists null itself
+		f["Enum"] = g.Anys(gen.Any(gen.TString(), absint.HoleStr(b.atom(s, "RawStr", "enum[0]", false))), gen.Any(gen.TString(), absint.HoleStr(b.atom(s, "RawStr", "enum[1]", false))), absint.Iface{})
 	case "collide":
 		// concrete strings that normalise to the same identifier
 		f["Enum"] = g.Anys(gen.Any(gen.TString(), absint.Lit("a-b")), gen.Any(gen.TString(), absint.Lit("a_b")), gen.Any(gen.TString(), absint.Lit("ab")))
